@@ -232,6 +232,18 @@ template <int... I> const TidApi* tid_table(std::integer_sequence<int, I...>) {
   static const TidApi t[] = {TidApi{tid_cur<I>, tid_end<I>, tid_for_each<I>}...};
   return t;
 }
+// the Leaky flavour (what the Concurrent* counters are built on): ids are handed
+// back at thread exit exactly like in the default flavour, only the allocator
+// singleton itself is never destroyed
+template <int N> uint32_t ltid_cur() { return babylon::LeakyThreadId::current_thread_id<Tag<N>>().version_and_value; }
+template <int N> uint16_t ltid_end() { return babylon::LeakyThreadId::end<Tag<N>>(); }
+template <int N> void ltid_for_each(std::vector<std::pair<int, int>>* out) {
+  babylon::LeakyThreadId::for_each<Tag<N>>([&](uint16_t b, uint16_t e) { out->push_back({b, e}); });
+}
+template <int... I> const TidApi* ltid_table(std::integer_sequence<int, I...>) {
+  static const TidApi t[] = {TidApi{ltid_cur<I>, ltid_end<I>, ltid_for_each<I>}...};
+  return t;
+}
 
 struct TidRun {
   const TidApi* api;
@@ -291,7 +303,9 @@ struct TidRun {
   }
 
   void run(const Plan& p) {
-    api = &tid_table(std::make_integer_sequence<int, NTAGS>())[g_runs_in_proc % NTAGS];
+    api = p.get("leaky", 0) ? &ltid_table(std::make_integer_sequence<int, NTAGS>())[g_runs_in_proc % NTAGS]
+                            : &tid_table(std::make_integer_sequence<int, NTAGS>())[g_runs_in_proc % NTAGS];
+    if (p.get("leaky", 0)) probe("tid_leaky_flavour");
     int ngen = 0;
     for (size_t t = 1; t < p.threads.size(); t++)
       for (auto& op : p.threads[t]) if (op.kind == K_TIDLIFE) ngen = std::max(ngen, (int)std::min<int64_t>(op.c, 7) + 1);
@@ -624,6 +638,7 @@ void gen(Rng& r, Plan& p, const GenParams& gp) {
   gen_common(r, p, SB_HALF, false, 600);
   int part = gp.mode >= 0 && gp.mode <= 3 ? gp.mode : (int)r.below(4);
   p.cfg["part"] = part;
+  p.cfg["leaky"] = r.chance(1, 2);  // part 2 only: ThreadId or LeakyThreadId
   int opid = 0;
   auto add = [&](size_t t, int kind, int64_t a, int64_t b, int64_t c) {
     if (p.threads.size() <= t) p.threads.resize(t + 1);
